@@ -26,6 +26,9 @@ VARS = ['alp', 'betax', 'betay', 'betaz', 'gxx', 'gxy', 'gxz', 'gyy', 'gyz',
 AUREL_TO_ET = {'alpha': 'alp'}
 _PRISTINE = {}
 _LAYOUT = (True, True)
+# Carpet-like iteration numbers: multiples of 128.  list(set([0,128,256]))
+# is [0, 256, 128] - orders that small consecutive integers never produce.
+S = 128
 
 
 def quiet():
@@ -39,8 +42,10 @@ def make_spec(layout):
     return {'simname': 'sim', 'grouped': grouped, 'proc': proc,
             'ghost': GHOST, 'variables': VARS, 'shapes': SHAPES,
             'restarts': [
-                {'its': {0: [0, 2, 4], 1: [0, 1, 2, 3, 4]}, 'boxes': bx},
-                {'its': {0: [4, 6, 8], 1: [4, 5, 6, 7, 8]}, 'boxes': bx}]}
+                {'its': {0: [S * i for i in (0, 2, 4)],
+                         1: [S * i for i in (0, 1, 2, 3, 4)]}, 'boxes': bx},
+                {'its': {0: [S * i for i in (4, 6, 8)],
+                         1: [S * i for i in (4, 5, 6, 7, 8)]}, 'boxes': bx}]}
 
 
 def build_pristine(layout, root):
@@ -192,6 +197,7 @@ def ops_menu(kind):
     ops = []
     if kind == 'full':
         Is = [[2], [4], [2, 4], [0, 2, 4, 6], [6, 2], [4, 100]]
+        Is = [[S * i for i in I] for I in Is]
         Vs = [['gxx'], ['gammadown3'], ['alpha'], ['gxx', 'alpha'],
               ['betaup3'], ['betax', 'gxy']]
         for I in Is:
@@ -203,25 +209,27 @@ def ops_menu(kind):
                                         split, rs))
     elif kind == 'medium':
         Is = [[2], [2, 4], [4, 6, 0], [6, 2]]
+        Is = [[S * i for i in I] for I in Is]
         Vs = [['gxx'], ['gammadown3'], ['gxx', 'alpha'], ['betaup3']]
         for I in Is:
             for V in Vs:
                 ops.append(('read', tuple(I), tuple(V), 0, True, -1))
         for V in Vs:
-            ops.append(('read', (4, 3), tuple(V), 1, True, -1))
-        ops.append(('read', (2, 4), ('gammadown3',), 0, False, -1))
-        ops.append(('read', (4,), ('gxx',), 0, True, 0))
-        ops.append(('read', (4, 2), ('gammadown3',), 0, True, 0))
+            ops.append(('read', (4 * S, 3 * S), tuple(V), 1, True, -1))
+        ops.append(('read', (2 * S, 4 * S), ('gammadown3',), 0, False, -1))
+        ops.append(('read', (4 * S,), ('gxx',), 0, True, 0))
+        ops.append(('read', (4 * S, 2 * S, 0), ('gammadown3',), 0, True, 0))
     else:   # small
         ops = [('read', (2,), ('gxx',), 0, True, -1),
                ('read', (2, 4), ('gammadown3',), 0, True, -1),
                ('read', (4,), ('gxy', 'alpha'), 0, True, -1),
-               ('read', (0, 4, 6), ('gammadown3',), 0, True, -1),
+               ('read', (0, 4, 2), ('gammadown3',), 0, True, -1),
                ('read', (6, 2), ('betaup3',), 0, True, -1),
                ('read', (4,), ('betax',), 0, True, 0),
                ('read', (3, 4), ('gxx',), 1, True, -1),
-               ('read', (4, 5, 3), ('gammadown3',), 1, True, -1),
+               ('read', (4, 0, 2, 1, 3), ('gammadown3',), 1, True, -1),
                ('read', (2, 4), ('gxx', 'alpha'), 0, False, -1)]
+        ops = [(o[0], tuple(S * i for i in o[1])) + o[2:] for o in ops]
     return ops
 
 
